@@ -187,7 +187,7 @@ func (c *check) Init(tier string, seed int64) engine.Space {
 			}
 		}
 	}
-	budget := 100.0
+	budget := 170.0
 	if tier == "thorough" {
 		budget = 1500
 	}
